@@ -179,7 +179,7 @@ func cmdCheck(args []string) int {
 	tier := fs.String("tier", envOr("VERIF_TIER", "quick"), "quick or thorough")
 	workers := fs.Int("workers", runtime.NumCPU(), "worker count")
 	only := fs.String("only", "", "run only harnesses whose name contains this")
-	solver := fs.String("solver", "z3", "z3, z3-new or cvc5")
+	solver := fs.String("solver", "z3-new", "z3-new (5.1.0), z3 (4.8.12) or cvc5")
 	verbose := fs.Bool("v", false, "verbose")
 	fs.StringVar(&paramFilter, "param", "", "run only harness configs with this param, e.g. n=3")
 	if len(args) < 1 {
@@ -240,11 +240,12 @@ type Result struct {
 	Wall         float64
 	Harnesses    []string
 	InitPoison   []string
+	SolverName   string
 	ExpectedViolations int
 }
 
 func runCheck(c *CheckDef, tier string, workers int, only, solver string, seed int64, verbose bool) *Result {
-	res := &Result{}
+	res := &Result{SolverName: solver + " -in (one process per worker)"}
 	incon := func(f string, a ...interface{}) { res.Inconclusive = append(res.Inconclusive, fmt.Sprintf(f, a...)) }
 
 	overlay, err := buildOverlay(c, false, nil)
@@ -322,6 +323,9 @@ func runCheck(c *CheckDef, tier string, workers int, only, solver string, seed i
 					return
 				case <-tk.C:
 					fmt.Fprintln(os.Stderr, run.Progress())
+					if os.Getenv("VERIF_DEBUG") != "" {
+						fmt.Fprint(os.Stderr, run.Debug())
+					}
 				}
 			}
 		}()
@@ -626,7 +630,7 @@ func writeEvidence(c *CheckDef, tier string, seed int64, res *Result) {
 			"out_of_model": res.Stats.OOM, "budget": res.Stats.BudgetEnds, "panic": res.Stats.Panics, "ended_at_violation": res.Stats.AssertEnds},
 		"assertion_queries": map[string]int{"reached": res.Stats.AssertQueries, "trivially_true_concrete": res.Stats.AssertTrivial,
 			"unsat": res.Stats.AssertUnsat, "sat": res.Stats.AssertSat, "unknown": res.Stats.AssertUnknown},
-		"solver": map[string]interface{}{"name": "z3 4.8.12 (z3 -in)", "queries": res.Solver.Queries, "sat": res.Solver.Sat, "unsat": res.Solver.Unsat,
+		"solver": map[string]interface{}{"name": res.SolverName, "queries": res.Solver.Queries, "sat": res.Solver.Sat, "unsat": res.Solver.Unsat,
 			"unknown": res.Solver.Unknown, "errors": res.Solver.Errors, "time_s": res.Solver.Time.Seconds(), "restarts": res.Solver.Restarts},
 		"interpreter_steps": res.Stats.Steps,
 		"stubs_hit":         res.Stubs,
